@@ -237,31 +237,38 @@ Record derived : Type := {
 
 (* None: the macro panics / loops / emits code that does not type-check
    (`BigInt<limbs>([..])` with a different number of limbs) *)
+(* Some(&trace / BigUint::from(base).pow(power)); BigUint division by zero panics *)
+Definition remaining_subgroup (trace : Z) (small : option (Z * Z)) : option (option Z) :=
+  match small with
+  | None => Some None
+  | Some (base, power) => if base ^ power =? 0 then None else Some (Some (trace / base ^ power))
+  end.
+
 Definition derive_macro (modulus generator : Z) (small : option (Z * Z)) : option derived :=
   match derive_limb_count modulus, derive_trace modulus with
   | Some limbs, Some trace =>
-      let remaining := match small with
-                       | Some (base, power) => Some (trace / base ^ power)
+      match remaining_subgroup trace small with
+      | None => None
+      | Some remaining =>
+          let root := modpow generator trace modulus in
+          let large := match remaining with
+                       | Some e => Some (modpow generator e modulus)
                        | None => None
                        end in
-      let root := modpow generator trace modulus in
-      let large := match remaining with
-                   | Some e => Some (modpow generator e modulus)
-                   | None => None
-                   end in
-      match str_to_limbs_u64 (to_string modulus) with
-      | Some (_, ml) =>
-          if Z.of_nat (length ml) =? limbs then
-            Some {| d_limbs := limbs;
-                    d_modulus := ml;
-                    d_generator := montfp ml (to_string generator);
-                    d_root := montfp ml (to_string root);
-                    d_large := match large with
-                               | Some v => Some (montfp ml (to_string v))
-                               | None => None
-                               end |}
-          else None
-      | None => None
+          match str_to_limbs_u64 (to_string modulus) with
+          | Some (_, ml) =>
+              if Z.of_nat (length ml) =? limbs then
+                Some {| d_limbs := limbs;
+                        d_modulus := ml;
+                        d_generator := montfp ml (to_string generator);
+                        d_root := montfp ml (to_string root);
+                        d_large := match large with
+                                   | Some v => Some (montfp ml (to_string v))
+                                   | None => None
+                                   end |}
+              else None
+          | None => None
+          end
       end
   | _, _ => None
   end.
